@@ -26,6 +26,9 @@ type PropConfig struct {
 	Bounded     []string `json:"bounded"`     // labels of bounded stand-ins (reported, never counted as proved)
 	Frames      []FrameCheck `json:"frames"`  // program-wide syntactic frame obligations
 	ThoroughVerify []string `json:"thorough_verify"` // functions under contract that are too expensive for the quick tier
+	// PostOnly: function key -> clause-name prefix. The function is verified for this property, but only its
+	// postconditions with that prefix are counted here; the others belong to the property they were written for.
+	PostOnly map[string]string `json:"post_only"`
 	Slow        []string `json:"slow_functions"` // functions whose obligations get 5x the solver budget (baseline and check alike)
 }
 
@@ -154,10 +157,12 @@ func cmdCheck(args []string) {
 			jobs = append(jobs, job{k, "verify"})
 		}
 	}
+	thoroughOnly := map[string]bool{}
 	if *tier == "thorough" {
 		for _, k := range cfg.ThoroughVerify {
 			if P.funcs[k] != nil && !seen[k] {
 				seen[k] = true
+				thoroughOnly[k] = true
 				jobs = append(jobs, job{k, "verify"})
 			}
 		}
@@ -196,6 +201,7 @@ func cmdCheck(args []string) {
 		}
 	}
 	retried := 0
+	secondOpinions := 0
 	results := make([]*fnResult, len(jobs))
 	var wg sync.WaitGroup
 	sem := make(chan struct{}, 10)
@@ -216,6 +222,52 @@ func cmdCheck(args []string) {
 	}
 	wg.Wait()
 
+	// Second opinion. A refutation can be an artefact of a lost auto-invariant (candidate invariants are validated with a
+	// time budget; on an overloaded machine one may be dropped and the remaining context is then too weak). Every function with
+	// a refuted contract obligation is verified once more on its own, with four times the inference budget; the better of
+	// the two results is kept.
+	claimedEarly := map[string]bool{}
+	for _, k := range base.Discharged {
+		claimedEarly[k] = true
+	}
+	if !*writeBaseline {
+		for i, r := range results {
+			if r == nil || r.err != nil || r.vc == nil {
+				continue
+			}
+			bad := 0
+			for _, o := range r.vc.obligs {
+				if o.Status == "sat" && (!isSafetyKind(o.Kind) || claimedEarly[obKey(o)]) && !skip[obKey(o)] {
+					bad++
+				}
+			}
+			if bad == 0 {
+				continue
+			}
+			savedH := houdiniTimeoutMs
+			houdiniTimeoutMs = 4 * savedH
+			to := timeout
+			if matchPatterns(r.key, cfg.Slow) {
+				to = 5 * timeout
+			}
+			vc2 := P.verify(P.funcs[r.key], to, 4, "", false, skip)
+			houdiniTimeoutMs = savedH
+			if vc2.err != nil {
+				continue
+			}
+			bad2 := 0
+			for _, o := range vc2.obligs {
+				if o.Status == "sat" && (!isSafetyKind(o.Kind) || claimedEarly[obKey(o)]) && !skip[obKey(o)] {
+					bad2++
+				}
+			}
+			if bad2 < bad {
+				results[i] = &fnResult{key: r.key, vc: vc2, mode: r.mode, err: nil, wall: r.wall}
+			}
+			secondOpinions++
+		}
+	}
+
 	// Baseline writing: the first pass runs many solver processes at once; obligations it leaves undecided get a
 	// second, nearly sequential attempt with the same budget so that "unclaimed" means "not provable within the base
 	// budget", not "starved of CPU".
@@ -223,15 +275,20 @@ func cmdCheck(args []string) {
 		type job2 struct {
 			vc *VC
 			o  *Oblig
+			to int
 		}
 		var again []job2
 		for _, r := range results {
 			if r == nil || r.err != nil || r.vc == nil {
 				continue
 			}
+			to := timeout
+			if matchPatterns(r.key, cfg.Slow) {
+				to = 5 * timeout
+			}
 			for _, o := range r.vc.obligs {
 				if o.Status != "unsat" && o.Status != "sat" && o.Status != "skipped" {
-					again = append(again, job2{r.vc, o})
+					again = append(again, job2{r.vc, o, to})
 				}
 			}
 		}
@@ -244,7 +301,7 @@ func cmdCheck(args []string) {
 				defer wg2.Done()
 				defer func() { <-sem2 }()
 				sub := &VC{P: P, tt: j.vc.tt, items: j.vc.items, obligs: []*Oblig{j.o}}
-				sub.dischargeWith(timeout, 1, "", nil)
+				sub.dischargeWith(2*j.to, 1, "", nil)
 			}(j)
 		}
 		wg2.Wait()
@@ -332,6 +389,9 @@ func cmdCheck(args []string) {
 				continue
 			}
 			if r.mode == "sweep+inv" && o.Kind == "post" {
+				continue
+			}
+			if pfx, ok := cfg.PostOnly[r.key]; ok && o.Kind == "post" && !strings.HasPrefix(o.Clause, pfx) {
 				continue
 			}
 			all = append(all, obRec{key: obKey(o), o: o, fn: r.key, mode: r.mode, vc: r.vc})
@@ -451,6 +511,14 @@ func cmdCheck(args []string) {
 		if unclaimed[r.key] {
 			if r.o.Status != "unsat" {
 				unclaimedNow = append(unclaimedNow, r.key)
+			}
+			continue
+		}
+		if thoroughOnly[r.fn] && isSafetyKind(r.o.Kind) {
+			// functions verified in the thorough tier only have no baseline: their implicit obligations are reported as
+			// unclaimed, only their contract clauses are decided
+			if r.o.Status != "unsat" {
+				unclaimedNow = append(unclaimedNow, r.key+" (thorough-only function)")
 			}
 			continue
 		}
@@ -647,6 +715,9 @@ func cmdCheck(args []string) {
 			if r.mode == "sweep+inv" && o.Kind == "post" {
 				continue
 			}
+			if pfx, ok := cfg.PostOnly[r.key]; ok && o.Kind == "post" && !strings.HasPrefix(o.Clause, pfx) {
+				continue
+			}
 			n++
 			if o.Status == "unsat" {
 				d++
@@ -674,6 +745,7 @@ func cmdCheck(args []string) {
 			"known_findings_hit":       knownHit,
 			"stale_contracts":          stale,
 			"retried_after_timeout":    retried,
+			"second_opinions":          secondOpinions,
 			"callee_contracts_assumed": calleeCts,
 			"solver_ms":                solverMs,
 			"solver_discharged":        solverCount,
